@@ -213,6 +213,11 @@ func c17Child(args []string) {
 				sc.Sizes[mid] = p.CompressedSize()
 				msgs, mids = append(msgs, m), append(mids, mid)
 			}
+			if i%5 == 3 && len(msgs) > 0 && from == "LA5NTA" {
+				// the same message queued twice (as Radio Only gateways do): it is proposed twice in
+				// one block, the receiver defers the duplicate, ONE transfer is reported
+				msgs = append(msgs, msgs[len(msgs)-1])
+			}
 			return
 		}
 		ma, midsA := mk("LA5NTA")
@@ -292,7 +297,7 @@ func c17Child(args []string) {
 
 func runC17(ctx *Ctx) error {
 	res := ctx.Res
-	res.Rule = "pairs of real sessions (master with 1..3 messages, slave with 0..3) on an in-memory link whose data-block writes are delayed by 0, 2, 30, 110 or 300 ms (the last longer than the 250 ms reporting period), half of them on a transport that reports a transmit-buffer length and implements Flush; both sides with a StatusUpdater that records every report (in a quarter of the pairs one that takes 80 ms over its first progress report of each message, like a user interface). The sessions run in a child process of the -race build of this harness with GORACE log files: every data race the detector reports whose stacks pass through /repo is a violation. The recorded reports are judged by the extracted Coq judge session_ok (per direction: the reports split at the Done reports must be one group per transferred message, each report naming that message, between 0 and its compressed size computed independently from Message.Proposal, the Done report last and only once) and by the harness: all Done reports delivered by the time Exchange returned, no report after it. Non-trivial: scenario with a delay of at least 30 ms (reports from the ticker); distinct by scenario."
+	res.Rule = "pairs of real sessions (master with 1..3 messages, slave with 0..3; in a fifth of the pairs the master has one message queued twice, which is proposed twice in one block and must be transferred and reported once) on an in-memory link whose data-block writes are delayed by 0, 2, 30, 110 or 300 ms (the last longer than the 250 ms reporting period), half of them on a transport that reports a transmit-buffer length and implements Flush; both sides with a StatusUpdater that records every report (in a quarter of the pairs one that takes 80 ms over its first progress report of each message, like a user interface). The sessions run in a child process of the -race build of this harness with GORACE log files: every data race the detector reports whose stacks pass through /repo is a violation. The recorded reports are judged by the extracted Coq judge session_ok (per direction: the reports split at the Done reports must be one group per transferred message, each report naming that message, between 0 and its compressed size computed independently from Message.Proposal, the Done report last and only once) and by the harness: all Done reports delivered by the time Exchange returned, no report after it. Non-trivial: scenario with a delay of at least 30 ms (reports from the ticker); distinct by scenario."
 	dir, err := os.MkdirTemp("", "verif-c17-")
 	if err != nil {
 		return err
